@@ -139,6 +139,22 @@ def lu_pivot_magnitude(ck, prog):
         return
     is_abs = lambda t: t[0] == "call" and t[1].endswith("::abs") and len(t[2]) == 1
     n = 0
+    # fold form of the search: `(j + 1..m).fold(j, |best, i| if |col[i]| > |col[best]| { i } else { best })` - the comparison
+    # lives in the closure, the running arg-max is the closure's accumulator parameter
+    for cb in prog.closures_of.get(b.path, []):
+        for r in scale.check_body(cb):
+            if r["lhs"] == "data" and r["rhs"] == "data" and r["rel"] in ("<", "<=", ">", ">="):
+                l, rr = r["data_term"], r["const_term"]
+                idxs = [s[2] for side in (l, rr) for s in subterms(side) if s[0] == "idx"]
+                params = {i[1] for i in idxs if i[0] == "arg"} | {x[1] for i in idxs for x in subterms(i) if x[0] == "arg"}
+                if not (len(params) >= 2 and all(k >= 2 for k in params)):
+                    continue                                    # not a comparison between the accumulator's and the item's entry
+                n += 1
+                if is_abs(l) and is_abs(rr):
+                    ck.ok(rule, inst, cb.path, r["where"], "fold form: " + r["text"])
+                else:
+                    ck.violation(rule, inst, cb.path, r["where"], expected="|candidate| compared with |current pivot|",
+                                 found=f"{render(l)[:80]} {r['rel']} {render(rr)[:80]}")
     for r in scale.check_body(b):
         if r["lhs"] == "data" and r["rhs"] == "data" and r["rel"] in ("<", "<=", ">", ">="):
             n += 1
